@@ -286,3 +286,22 @@ def too_big(text):
     """a number beyond the exactly representable integers: outside the model's stated domain"""
     import re
     return any(len(m.lstrip("-")) > 15 for m in re.findall(r"n:(-?[0-9]+)", text))
+
+
+def discipline(ctx, common, programs, label):
+    """OBLIGATION of alloc_fresh / free_inv (C10): the compiler frees only registers it holds and is never handed a held one.
+    The allocator (built with cfg tsrun_verif) counts violations while the real compiler compiles whole programs."""
+    import json
+    outs = common.harness(["compile"], ["P\t" + json.dumps(p) for p in programs], timeout=900, chunk=20)
+    bad = 0
+    for p, o in zip(programs, outs):
+        ctx.cov["evaluations"] += 1
+        if o.startswith("parse-error") or o == "bad-case":
+            continue
+        ctx.cov["traces_validated_against_impl"] += 1
+        if "badfree=0 badalloc=0" not in o:
+            bad += 1
+            ctx.corr_fail("the compiler broke the register discipline the allocator theorems assume (alloc_fresh / free_inv: a register is freed once, by its holder): "
+                          "a register was freed that was not held, or handed out while held, while compiling this program",
+                          {"program": p[:4000], "source": label}, "badfree=0 badalloc=0", o)
+    return len(programs), bad
